@@ -289,7 +289,10 @@ impl Fam for R6 {
         for x in floats() {
             v.push(R6 { x, ..base.clone() });
         }
-        for y in [0.1f32, -0.0, f32::INFINITY, f32::NAN, 1.0, f32::MAX, f32::MIN_POSITIVE, 16777216.0] {
+        for x in [-f64::NAN, f64::from_bits(0xfff0_0000_0000_0001), f64::NEG_INFINITY] {
+            v.push(R6 { x: Fl(x), ..base.clone() });
+        }
+        for y in [0.1f32, -0.0, f32::INFINITY, f32::NAN, -f32::NAN, f32::from_bits(0xff80_0001), f32::NEG_INFINITY, 1.0, f32::MAX, f32::MIN_POSITIVE, 16777216.0] {
             v.push(R6 { y: Fs(y), ..base.clone() });
         }
         v.push(R6 { a: i8::MIN, b: i16::MAX, c: i32::MIN, d: i64::MAX, e: u8::MAX, f: u16::MAX, g: u32::MAX, h: i64::MAX as u64, x: Fl(-0.0), y: Fs(-0.0) });
@@ -670,6 +673,42 @@ impl Fam for RootEnum {
     }
 }
 
+/// `None` reached through serde's MAP interface (a map whose values are options, a flattened struct): TOML has no null,
+/// a `None` is spelled by leaving the entry out, so values are compared modulo `None` entries
+#[derive(Serialize, Deserialize, PartialEq, Debug, Clone)]
+pub struct FlatIn {
+    pub fa: Option<i64>,
+    pub fb: i64,
+    pub fc: Option<String>,
+}
+#[derive(Serialize, Deserialize, Debug, Clone)]
+pub struct U6 {
+    pub m: BTreeMap<String, Option<i64>>,
+    #[serde(flatten)]
+    pub f: FlatIn,
+    pub z: i64,
+}
+impl PartialEq for U6 {
+    fn eq(&self, o: &U6) -> bool {
+        let live = |m: &BTreeMap<String, Option<i64>>| m.iter().filter(|(_, v)| v.is_some()).map(|(k, v)| (k.clone(), *v)).collect::<Vec<_>>();
+        live(&self.m) == live(&o.m) && self.f == o.f && self.z == o.z
+    }
+}
+impl Fam for U6 {
+    const NAME: &'static str = "U6{m: Map<String, Option<i64>>, #[serde(flatten)] f: {fa: Option, fb, fc: Option}, z} (None through the map interface; equality modulo None entries)";
+    fn all(_tier: Tier) -> Vec<Self> {
+        let mut v = Vec::new();
+        for m in maps(&["a", "b c", "d"], &[None, Some(0i64)]) {
+            for fa in [None, Some(-1i64)] {
+                for fc in [None, Some("s".to_string())] {
+                    v.push(U6 { m: m.clone(), f: FlatIn { fa, fb: 2, fc: fc.clone() }, z: 1 });
+                }
+            }
+        }
+        v
+    }
+}
+
 pub trait Check: Sync {
     fn check<T: Fam>(&self, v: &T, acc: &mut Acc);
 }
@@ -706,6 +745,7 @@ pub fn run_family<C: Check>(c: &C, tier: Tier) -> (Acc, Vec<(String, usize)>) {
     run_one::<U3, C>(c, tier, &mut total, &mut sizes);
     run_one::<U4, C>(c, tier, &mut total, &mut sizes);
     run_one::<U5, C>(c, tier, &mut total, &mut sizes);
+    run_one::<U6, C>(c, tier, &mut total, &mut sizes);
     run_one::<E, C>(c, tier, &mut total, &mut sizes);
     run_one::<Vec<Inner>, C>(c, tier, &mut total, &mut sizes);
     run_one::<Inner, C>(c, tier, &mut total, &mut sizes);
